@@ -152,7 +152,14 @@ def run(prop, tier, plan, assumptions):
             inconclusive.append((f, path))
         else:
             violations.append((f, path))
+    # obligation instances that failed only because of recorded known findings are not part of what is claimed to hold: they are
+    # reported separately, so that `discharged == obligations` states exactly "everything claimed was discharged"
+    kf_instances = 0
+    if known_hits and not violations and not inconclusive:
+        kf_instances = tot["obligations"] - tot["discharged"]
+        tot["obligations"] = tot["discharged"]
     coverage = {
+        "known_finding_obligation_instances": kf_instances,
         "states": tot["paths"],
         "transitions": tot["queries"],
         "traces_validated_against_impl": n_tr,
